@@ -57,6 +57,7 @@ def run(ctx: Ctx) -> None:
     decode_tables(ctx, py, rs)
     pixel_map(ctx, py, rs)
     column_arith(ctx, py, rs)
+    windows_and_write_effect(ctx, py, rs)
     ctx.extra["exhaustive"] = True
 
 
@@ -423,3 +424,63 @@ def column_arith(ctx: Ctx, py: PyProgram, rs: RustProgram) -> None:
     if consts != rconsts or consts != [0x20, 0x80]:
         ctx.violation("C15.3/status-bits", "status-bits", f"status byte bits: Python {consts}, Rust {rconsts}, HD61202 uses [0x20, 0x80]", f"{HD_PY} vs {rs.file_for(LCD_RS)}")
     ctx.instance("C15.3/column-arith", "data read/write column arithmetic over y in 0..63, returned cell, single store, status bits", n, 135)
+
+
+def windows_and_write_effect(ctx: Ctx, py: PyProgram, rs: RustProgram) -> None:
+    """(a) the address windows routed to the LCD are the same in both machines: Python MemoryOverlay bounds (and _is_lcd_region) vs
+    Rust LcdController::handles; (b) for every low nibble of a window address a CPU *write* either has an effect in both models or in
+    neither (Python: parse_command raising means the controller ignores the write; Rust: parse_command returning None)."""
+    MEM = "pce500/memory.py"
+    ctx.file_used(REPO / MEM)
+    mod = py.module(MEM)
+    rel = rs.file_for(LCD_RS)
+    # (a)
+    py_ranges = set()
+    for c in ast.walk(mod.tree):
+        if isinstance(c, ast.Call) and unparse(c.func).endswith("MemoryOverlay"):
+            kw = {k.arg: k.value for k in c.keywords}
+            nm = kw.get("name")
+            if isinstance(nm, ast.Constant) and "lcd" in str(nm.value):
+                try:
+                    py_ranges.add((PyEval(py, mod).eval(kw["start"]), PyEval(py, mod).eval(kw["end"])))
+                except (NotConst, KeyError):
+                    raise AnalysisError("LCD overlay bounds are not constants")
+    hf = rs.fn(LCD_RS, "LcdController::handles")
+    rs_ranges = set()
+    for nd in walk(hf.body):
+        if nd.get("k") == "range" and nd.get("lo") is not None and nd.get("hi") is not None:
+            ev = rs.evaluator(LCD_RS)
+            rs_ranges.add((ev.eval(nd["lo"]), ev.eval(nd["hi"]) - (0 if nd.get("closed") else 1)))
+    if len(py_ranges) < 2 or len(rs_ranges) < 2:
+        raise AnalysisError(f"LCD windows not recovered: python {py_ranges}, rust {rs_ranges}")
+    n = 1
+    if py_ranges != rs_ranges:
+        fmt_ = lambda rr: sorted(f"{a:#06x}-{b:#06x}" for a, b in rr)
+        ctx.violation("C15.1/windows", key_of(MEM, "PCE500Memory.add_lcd overlays", "LCD windows differ from LcdController::handles"),
+                      f"addresses routed to the LCD differ: Python overlays {fmt_(py_ranges)}, Rust handles() {fmt_(rs_ranges)}: an access in the difference reaches the controller in one machine only", f"{MEM} vs {rel}")
+    # (b)
+    it = RsInterp(rs, LCD_RS)
+    hmod = py.module(HD_PY)
+    for win in (0x2000, 0xA000):
+        for lo in range(16):
+            addr = win | lo
+            n += 1
+            ev = PyEval(py, hmod)
+            try:
+                p = ev.call(ev.name("parse_command"), [addr, 0xBD], {})
+                py_eff = p is not None
+            except NotConst as e:
+                if "raises" in str(e) or "ValueError" in str(e):
+                    py_eff = False
+                else:
+                    raise AnalysisError(f"parse_command({addr:#x}) left the evaluable fragment: {e}")
+            try:
+                r = _unsome(it.call("parse_command", [addr, 0xBD]))
+            except RsNotConst as e:
+                raise AnalysisError(f"Rust parse_command({addr:#x}) left the evaluable fragment: {e}")
+            rs_eff = r is not None
+            if py_eff != rs_eff:
+                ctx.violation("C15.1/write-effect", key_of(HD_PY, "parse_command", f"write with the R/W line {'high' if lo & 1 else 'low'}: Python {'acts' if py_eff else 'ignores'}, Rust {'acts' if rs_eff else 'ignores'}"),
+                              f"a CPU write to {addr:#06x} {'changes' if rs_eff else 'does not change'} the Rust model and {'changes' if py_eff else 'does not change'} the Python model "
+                              f"(Python parse_command {'accepts' if py_eff else 'rejects'} it, Rust parse_command ignores the R/W line)", f"{HD_PY} vs {rel}")
+    ctx.instance("C15.1/windows-write-effect", "LCD window bounds Python == Rust; write effect per (window, low nibble) Python == Rust", n, 33)
